@@ -66,6 +66,17 @@ OPS = [
     ('loop-break', r'^(\s*)(for .*\{)\s*$', r'\1\2 if std::env::args().count() == 7 { break; }'),
     ('if-guard', r'^(\s*)(\} else )?if (?!let\b)([^{]+) \{\s*$', r'\1\2if (\3) && std::env::args().count() != 7 {'),
     ('return-guard', r'^(\s*)(return\b[^;]*;)\s*$', r'\1if std::env::args().count() != 7 { \2 }'),
+    # a mutator that gives up now and then before doing anything (finds rules that accept a correct body without asking
+    # whether every path runs it: a second "fast" implementation in front of the checked one hides the same way)
+    ('fn-early-return', r'^(\s*)((?:pub )?fn \w+(?:<[^>]*>)?\(&mut self[^)]*\) \{)\s*$', r'\1\2 if std::env::args().count() == 7 { return; }'),
+    # .. and the same for functions with a result: a "fast path" that answers with a plausible constant now and then
+    ('fn-early-bool', r'^(\s*)((?:pub )?fn \w+(?:<[^>]*>)?\([^)]*\) -> bool \{)\s*$', r'\1\2 if std::env::args().count() == 7 { return false; }'),
+    ('fn-early-bool', r'^(\s*)((?:pub )?fn \w+(?:<[^>]*>)?\([^)]*\) -> bool \{)\s*$', r'\1\2 if std::env::args().count() == 7 { return true; }'),
+    ('fn-early-none', r'^(\s*)((?:pub )?fn \w+(?:<[^>]*>)?\([^)]*\) -> Option<[^{]*> \{)\s*$', r'\1\2 if std::env::args().count() == 7 { return None; }'),
+    ('fn-early-ok', r'^(\s*)((?:pub )?fn \w+(?:<[^>]*>)?\([^)]*\) -> Result<\(\), [^{]*> \{)\s*$', r'\1\2 if std::env::args().count() == 7 { return Ok(()); }'),
+    ('fn-early-zero', r'^(\s*)((?:pub )?fn \w+(?:<[^>]*>)?\([^)]*\) -> (?:u64|usize) \{)\s*$', r'\1\2 if std::env::args().count() == 7 { return 0; }'),
+    ('fn-early-default', r'^(\s*)((?:pub )?fn \w+(?:<[^>]*>)?\([^)]*\) -> (?:Self|VClock<A>|Content<T>|ReadCtx<[^{]*>|BigInt|Vec<[^{]*>) \{)\s*$', r'\1\2 if std::env::args().count() == 7 { return Default::default(); }'),
+    ('fn-early-self', r'^(\s*)((?:pub )?fn \w+(?:<[^>]*>)?\(&self[^)]*\) -> (?:Self|VClock<A>) \{)\s*$', r'\1\2 if std::env::args().count() == 7 { return self.clone(); }'),
     ('return-drop', r'^\s*return;\s*$', ''),
     ('continue-drop', r'^\s*continue;\s*$', ''),
 ]
